@@ -436,9 +436,13 @@ def partCellLoop (fl : Flavor) (bs : Bytes) (k : Kind) (connOff faceOff : Int) (
 def partIndexOk (k : Kind) (nnode : Int) (c : List Int) : Bool :=
   (c.take k.nodePer).all fun g => decide (0 ≤ g ∧ g < nnode)
 
-/-- node set of a cell, as `ref_cell_with` compares it (`ref_sort_unique_int`) -/
+def insertInt (x : Int) : List Int → List Int
+  | [] => [x]
+  | y :: ys => if x ≤ y then x :: y :: ys else y :: insertInt x ys
+
+/-- node set of a cell, as `ref_cell_with` compares it (`ref_sort_unique_int`: sorted, duplicates removed) -/
 def nodeSet (k : Kind) (c : List Int) : List Int :=
-  ((c.take k.nodePer).mergeSort (fun a b => decide (a ≤ b))).eraseDups
+  ((c.take k.nodePer).foldr insertInt []).eraseDups
 
 /-- `ref_cell_add_many_global` keeps the first cell of each node set -/
 def dedupCells (k : Kind) : List (List Int) → List (List Int) → List (List Int)
